@@ -524,7 +524,7 @@ func (x *Exec) runFunc(fd *ast.FuncDecl, c *Contract, sc splitCase, first bool) 
 			}
 			es := exit.clone()
 			x.skolem = true
-			x.softNames, x.softMiss = en.Internal, false
+			x.softNames, x.softMiss, x.softEndPos = en.Internal, false, endPos
 			at := endPos
 			if en.Internal && exit.retPos.IsValid() {
 				// locals are resolved where this exit's return statement stands
